@@ -230,6 +230,34 @@ def _len_like_local(cad, path):
     return False
 
 
+_RS_MEMO = {}
+
+
+def _returns_size(cad, path, sz):
+    """every value a local size function returns is itself a sum/product of sizes and small constants (a hint that is
+    `usize::MAX / 2` "for safety" would make the caller's sum overflow without any overflow site of its own)"""
+    key = (id(cad), path, tuple(sorted(sz)))
+    if key in _RS_MEMO:
+        return _RS_MEMO[key]
+    _RS_MEMO[key] = True        # recursion guard (REC reports recursion)
+    ok = True
+    for b in cad.all_bodies:
+        if strip_generics(b.path) == path:
+            T = Terms(b)
+            for r in ret_terms(T, [0]):
+                for leaf in flatten_phi(norm(r)):
+                    while leaf[0] == 'bin' and leaf[1] in ('Sub', 'SubWithOverflow') and norm(leaf[3])[0] == 'const':
+                        leaf = norm(leaf[2])        # a size minus a small constant is no larger (its own underflow site is judged where it is)
+                    if leaf[0] == 'field' and leaf[1][0] == 'bin':
+                        leaf = leaf[1]              # (a op b).0 of a checked operation
+                        while leaf[0] == 'bin' and leaf[1] in ('Sub', 'SubWithOverflow') and norm(leaf[3])[0] == 'const':
+                            leaf = norm(leaf[2])
+                    if not unsigned_leafs_ok(peel_views(leaf), lambda x: _size_leaf(x, sz, cad) or (x[0] == 'param' and b.locals[x[1]] == 'usize')):
+                        ok = False
+    _RS_MEMO[key] = ok
+    return ok
+
+
 def peel_views(a):
     while a[0] in ('ref', 'copy', 'move', 'mutated') and len(a) > 1 and isinstance(a[1], tuple):
         a = a[1]
@@ -241,7 +269,7 @@ def _size_leaf(t, sz, cad=None):
     if t[0] == 'call' and isinstance(t[1], str) and (t[1].endswith('::len') or t[1].endswith('::capacity')):
         return True
     if t[0] == 'call' and isinstance(t[1], str) and cad is not None and _len_like_local(cad, t[1]):
-        return True
+        return _returns_size(cad, t[1], sz)
     if t[0] == 'call' and isinstance(t[1], str) and cad is not None and _size_fn(cad, strip_generics(t[1])) is not None:
         # a private size function applied to sizes
         return all(unsigned_leafs_ok(peel_views(a), lambda x: _size_leaf(x, sz, cad)) for a in t[2])
